@@ -32,6 +32,17 @@ func (g G) Bool() bool { return rapid.Bool().Draw(g.t, "b") }
 
 // Chance is true with probability about num/den.
 func (g G) Chance(num, den int) bool { return rapid.IntRange(1, den).Draw(g.t, "p") <= num }
+
+// Rare is true with probability 2^-bits exactly: rapid's integer ranges favour small values (IntRange(1, 2500)
+// yields 1 about one time in ten), fair coin flips do not.
+func (g G) Rare(bits int) bool {
+	for i := 0; i < bits; i++ {
+		if !rapid.Bool().Draw(g.t, "rare") {
+			return false
+		}
+	}
+	return true
+}
 func (g G) Pick(xs ...string) string {
 	return xs[rapid.IntRange(0, len(xs)-1).Draw(g.t, "k")]
 }
